@@ -484,3 +484,230 @@ class CrashRun:
             "world": {"virtual_s": 0.0, "nreq": 0},
             "fs": {"bypass": len(FS.bypass), "bypass_sample": FS.bypass[:3]},
         }
+
+
+# ------------------------------------------------------------------------------
+# HTTP-level victims: the same crash model with the web layer's own fs calls
+# inside the crash window (DESIGN.md 4/C04, "also the same victims issued as
+# HTTP requests").
+class CrashHttpRun:
+    COLLS = ["/user/calendars/calendar/", "/user/contacts/addressbook/", "/user/calendars/bare/"]
+
+    def __init__(self, seed, tier, tag, plan=None):
+        self.seed = seed
+        self.tier = tier
+        self.tag = tag
+        self.plan = plan
+        self.violations = []
+        self.stats = {}
+        self.nontrivial = set()
+        self.images = 0
+        self.samples = []
+
+    def count(self, k, n=1):
+        self.stats[k] = self.stats.get(k, 0) + n
+
+    def v(self, oracle, detail, **sig):
+        s = {"oracle": oracle, "level": "http"}
+        s.update(sig)
+        self.violations.append({"prop": "C04", "oracle": oracle, "sig": s, "step": None, "detail": str(detail)[:700]})
+
+    def make_plan(self):
+        from .. import dav
+
+        r = random.Random(H("crashhttp", self.seed))
+        cfg = {"seed": self.seed, "frontend": r.choice(["wsgi", "wsgi", "aiohttp"]), "prefix": r.choice(["/", "/dav/"]), "autocreate": "defaults", "strict": True, "listing": False}
+        pre = []
+        live = {}
+        for i in range(r.randint(1, 6)):
+            coll = r.choice(self.COLLS)
+            ext = ".vcf" if "contacts" in coll else ".ics"
+            nm = "p%d%s" % (i, ext)
+            body, ct = make_body(r, nm, "uid-%d" % i)
+            pre.append({"method": "PUT", "path": coll + nm, "ctype": ct, "body": body.decode("latin-1")})
+            live[coll + nm] = "uid-%d" % i
+        if r.random() < 0.4:
+            pre.append({"method": "PROPPATCH", "path": r.choice(self.COLLS), "ctype": "text/xml", "body": dav.proppatch_body([("set", dav.P_DISPLAYNAME, "before")]).decode("latin-1")})
+        k = r.choice(["create", "replace", "replace", "delete", "proppatch", "post", "noop"])
+        if k in ("replace", "delete", "noop") and not live:
+            k = "create"
+        if k == "create":
+            coll = r.choice(self.COLLS)
+            nm = "new" + (".vcf" if "contacts" in coll else ".ics")
+            body, ct = make_body(r, nm, "uid-new")
+            victim = {"method": "PUT", "path": coll + nm, "ctype": ct, "body": body.decode("latin-1")}
+        elif k in ("replace", "noop"):
+            p = r.choice(sorted(live))
+            if k == "noop":
+                body = [x for x in pre if x.get("path") == p][-1]["body"].encode("latin-1")
+                ct = "text/vcard" if p.endswith(".vcf") else "text/calendar"
+            else:
+                body, ct = make_body(r, p, live[p])
+            victim = {"method": "PUT", "path": p, "ctype": ct, "body": body.decode("latin-1")}
+        elif k == "delete":
+            victim = {"method": "DELETE", "path": r.choice(sorted(live))}
+        elif k == "post":
+            coll = r.choice(self.COLLS)
+            nm = "x" + (".vcf" if "contacts" in coll else ".ics")
+            body, ct = make_body(r, nm, "uid-post")
+            victim = {"method": "POST", "path": coll, "ctype": ct, "body": body.decode("latin-1")}
+        else:
+            coll = r.choice(self.COLLS)
+            instrs = [("set", dav.P_DISPLAYNAME, "after %d" % r.randint(0, 99))]
+            if r.random() < 0.5:
+                instrs.append(("set", dav.P_COMMENT, "c %d" % r.randint(0, 99)))
+            victim = {"method": "PROPPATCH", "path": coll, "ctype": "text/xml", "body": dav.proppatch_body(instrs).decode("latin-1")}
+        victim["kind"] = k
+        return {"cfg": cfg, "pre": pre, "victim": victim, "points": None}
+
+    def run(self):
+        arena = Arena(self.tag)
+        try:
+            return self._run(arena)
+        finally:
+            FS.active = False
+            arena.destroy()
+
+    def send(self, w, rq):
+        h = [("Content-Type", rq["ctype"])] if rq.get("ctype") else []
+        return w.req(rq["method"], rq["path"], h, rq.get("body", "").encode("latin-1"))
+
+    def world_on(self, arena, root, cfg):
+        from ..world import World
+
+        w = World(arena, cfg)
+        w.arena = type("A", (), {"root": root, "path": arena.path, "tmp": arena.tmp, "rel": arena.rel})()
+        return w
+
+    def observe_all(self, w):
+        from ..observe import observe_collection
+
+        return {c: observe_collection(w, c) for c in self.COLLS}
+
+    def _run(self, arena):
+        from ..world import preseed_collection
+
+        plan = self.plan or self.make_plan()
+        cfg = plan["cfg"]
+        FS.reset()
+        w = self.world_on(arena, arena.root, cfg)
+        w.boot()
+        w.shutdown()
+        preseed_collection(arena.root, "/user/calendars/bare/", "bare", "calendar")
+        FS.reset()
+        w.boot()
+        acked = []
+        for rq in plan["pre"]:
+            r = self.send(w, rq)
+            if r is not None and r.status in (200, 201, 204, 207):
+                acked.append(rq)
+        pre_obs = self.observe_all(w)
+        w.shutdown()
+        pre_dir = os.path.join(arena.path, "pre")
+        shutil.copytree(arena.root, pre_dir, symlinks=True)
+        work = os.path.join(arena.path, "work")
+        # dry run
+        shutil.copytree(pre_dir, work, symlinks=True)
+        FS.reset()
+        FS.log = []
+        w2 = self.world_on(arena, work, cfg)
+        w2.boot()
+        base = FS.mut_seq
+        r = self.send(w2, plan["victim"])
+        n_events = FS.mut_seq - base
+        events = list(FS.log[base:])
+        FS.log = None
+        post_obs = self.observe_all(w2)
+        w2.shutdown()
+        rmtree_real(work)
+        self.count("http_victims." + plan["victim"]["kind"])
+        if n_events == 0 or r is None or r.status >= 400:
+            return self.result(plan, n_events)
+        points = plan.get("points")
+        if points is None:
+            rr = random.Random(H("crashhttp-points", self.seed))
+            allp = []
+            for k in range(1, n_events + 1):
+                allp.append((k, None))
+                kind, paths, nbytes = events[k - 1]
+                if kind == "write" and nbytes and nbytes > 1:
+                    allp.append((k, rr.choice([0.0, 0.5, rr.random()])))
+            points = sorted(rr.sample(allp, 8), key=lambda x: (x[0], x[1] is not None)) if (self.tier == "quick" and len(allp) > 8) else allp
+        for (k, torn) in points:
+            rmtree_real(work)
+            shutil.copytree(pre_dir, work, symlinks=True)
+            FS.reset()
+            w3 = self.world_on(arena, work, cfg)
+            w3.boot()
+            if FS.mut_seq != base:
+                w3.shutdown()
+                raise RuntimeError("nondeterministic start-up: %d vs %d mutations" % (FS.mut_seq, base))
+            FS.crash_at = base + k
+            FS.torn_frac = torn
+            try:
+                self.send(w3, plan["victim"])
+            except SimCrash:
+                pass
+            except BaseException:  # noqa: BLE001
+                pass
+            if not FS.crashed:
+                w3.shutdown()
+                continue
+            ev = FS.crash_event
+            self.images += 1
+            self.count("fault.crash")
+            self.count("http_crash_images")
+            if torn is not None:
+                self.count("fault.torn_write")
+            w3.crash_restart()
+            sig = dict(frontend=cfg["frontend"], victim=plan["victim"]["kind"], event=ev[0] if ev else "?")
+            where = "%s %s: crash before event %d/%d (%s %s%s)" % (plan["victim"]["method"], plan["victim"]["path"], k, n_events, ev[0] if ev else "?",
+                                                           [os.path.relpath(p, work) for p in (ev[1] if ev else ())], ", torn %.2f" % torn if torn is not None else "")
+            try:
+                obs = self.observe_all(w3)
+            except Exception as e:  # noqa: BLE001
+                self.v("C04.read-back-fails", "%s: %r" % (where, e), **sig)
+                w3.shutdown()
+                break
+            w3.shutdown()
+            self.nontrivial.add(("http", cfg["frontend"], plan["victim"]["kind"], ev[0] if ev else "?", k, torn is not None))
+            self.judge(plan, pre_obs, post_obs, obs, where, sig)
+            if len(self.samples) < 1:
+                self.samples.append({"level": "http", "frontend": cfg["frontend"], "victim": {x: (y[:50] if isinstance(y, str) else y) for x, y in plan["victim"].items()}, "crash_at_event": k, "of": n_events, "event": ev[0] if ev else None})
+            if self.violations:
+                plan = dict(plan, points=[(k, torn)])
+                break
+        return self.result(plan, n_events)
+
+    def judge(self, plan, pre, post, obs, where, sig):
+        vpath = plan["victim"]["path"]
+        for c in self.COLLS:
+            o, a, b = obs[c], pre[c], post[c]
+            if not o.exists:
+                self.v("C04.collection-does-not-open", "%s: PROPFIND %s -> %s" % (where, c, o.status), **sig)
+                continue
+            names = set(a.members) | set(b.members) | set(o.members)
+            for n in sorted(names):
+                old = a.members.get(n, {}).get("body") if a.members.get(n, {}).get("status") == 200 else None
+                new = b.members.get(n, {}).get("body") if b.members.get(n, {}).get("status") == 200 else None
+                gm = o.members.get(n)
+                if gm is not None and gm.get("status") != 200:
+                    self.v("C04.read-back-fails", "%s: GET %s%s -> %s" % (where, c, n, gm.get("status")), **sig)
+                    continue
+                got = gm.get("body") if gm else None
+                if got not in (old, new):
+                    self.v("C04.victim-neither-old-nor-new" if (c + n == vpath or old != new) else "C04.other-member-altered",
+                           "%s: %s%s is %s (old %s, new %s)" % (where, c, n, "absent" if got is None else "%d bytes" % len(got), "absent" if old is None else "%d bytes" % len(old), "absent" if new is None else "%d bytes" % len(new)), **sig)
+                if got is not None:
+                    kind = "ics" if n.endswith(".ics") else "vcf" if n.endswith(".vcf") else None
+                    if kind and icalparse.well_formed(got, kind):
+                        self.v("C04.member-incomplete", "%s: %s%s does not parse" % (where, c, n), **sig)
+            for t, val in o.props.items():
+                if val not in (a.props.get(t), b.props.get(t)):
+                    self.v("C04.metadata-third-value", "%s: %s %s is %r (old %r, new %r)" % (where, c, t, val, a.props.get(t), b.props.get(t)), key=t.split("}")[1], **sig)
+
+    def result(self, plan, n_events):
+        return {"violations": self.violations[:5], "plan": plan, "engine": "crash-http", "stats": self.stats, "nontrivial_keys": [list(x) for x in sorted(self.nontrivial, key=repr)],
+                "images": self.images, "n_events": n_events, "samples": self.samples, "skipped": None, "exhaustive_for_victim": False,
+                "digest": hashlib.sha256(repr((sorted(self.stats.items()), n_events)).encode()).hexdigest(),
+                "world": {"virtual_s": 0.0, "nreq": 0}, "fs": {"bypass": len(FS.bypass), "bypass_sample": FS.bypass[:3]}}
